@@ -14,7 +14,7 @@ func c01Lanes(r *fw.Run, p *fw.Program)  {}
 
 // c01Clone: C01.clone — clones start at the logical start and keep the window.
 func c01Clone(r *fw.Run, p *fw.Program) {
-	ru := r.Rule("C01.clone", "CloneReaderAtSeeker of the computing readers builds a fresh reader over the same window/sub-readers whose cursor is reset to the logical start (Section: bitOff = bitBase; Multi: pos = 0), never a copy of the current cursor", 7)
+	ru := r.Rule("C01.clone", "CloneReaderAtSeeker of the computing readers builds a fresh reader over the same window/sub-readers whose cursor is reset to the logical start (Section: bitOff = bitBase; Multi: pos = 0), never a copy of the current cursor; a LimitReader clone keeps the remaining limit", 9)
 	type spec struct {
 		fn, typ string
 		recv    string
@@ -25,6 +25,9 @@ func c01Clone(r *fw.Run, p *fw.Program) {
 			map[string]string{"bitBase": "r.bitBase", "bitOff": "r.bitBase", "bitLimit": "r.bitLimit", "r": "r.r"}},
 		{"(*pkg/bitio.MultiReader).CloneReaderAtSeeker", "pkg/bitio.MultiReader", "m",
 			map[string]string{"pos": "0", "readers": "m.readers", "readerEnds": "m.readerEnds"}},
+		// a LimitReader has no seekable cursor: its clone continues with the bits that are left
+		{"(*pkg/bitio.LimitReader).CloneReader", "pkg/bitio.LimitReader", "r",
+			map[string]string{"n": "r.n"}},
 	} {
 		fn := getFn(ru, p, sp.fn)
 		if fn == nil {
